@@ -611,4 +611,28 @@ theorem twin_initial (f1 f2 : Facet K) (p1 p2 p3 : Nat) (h1 : f1.valid = true) (
   rcases hi' with rfl | rfl <;> rcases lt3 hj with rfl | rfl | rfl <;>
     simp [t0, t1, a1, a2, i1, i2, q1, q2, h1, h2, T3.get, first, second]
 
+
+/-- the facet selected by the "furthest among the facets that can see the point" loops can see the point -/
+theorem furthestB_canSee (pts : Array (V3 K)) (nf : Array (Facet K)) (vp j : Nat)
+    (h : (furthestB pts nf vp).1 = some j) : (tAt nf j).canSee vp pts = true := by
+  unfold furthestB at h
+  have hinit : ∀ j, ((none : Option Nat), (0 : K)).1 = some j → (tAt nf j).canSee vp pts = true :=
+    fun j hj => absurd hj (by simp)
+  revert h hinit
+  generalize ((none : Option Nat), (0 : K)) = acc
+  generalize List.range nf.size = l
+  induction l generalizing acc with
+  | nil => intro h hinit; exact hinit j h
+  | cons a l ih =>
+    intro h hinit
+    simp only [List.foldl_cons] at h
+    refine ih _ h ?_
+    intro j' hj'
+    by_cases hc : (tAt nf a).canSee vp pts = true
+    · simp only [hc, if_true] at hj'
+      by_cases hlt : acc.2 < (tAt nf a).dist vp pts
+      · simp only [hlt, if_true, Option.some.injEq] at hj'; subst hj'; exact hc
+      · simp only [hlt, if_false] at hj'; exact hinit j' hj'
+    · simp only [hc, Bool.false_eq_true, if_false] at hj'; exact hinit j' hj'
+
 end C12.H3
